@@ -557,5 +557,131 @@ theorem adrainM_post (fin0 : Nat) (sc : Script) (kd : Async.Kinds) (cfg : Cfg) (
           (Async.drain sub sc kd cfg 2 m' n { s1 with queue := Async.qPop 2 m' s1.queue })
         exact APost.pre (A := accM fin0) a1 (by rw [← l1]; exact h2)
 
+/-! ### awaited triggers: deferred to a session, or a nested session -/
+
+theorem modelOf_append {σ : Q} {m : Nat} (h : modelOf σ = some m) (l : List (Nat × Nat)) :
+    modelOf { σ with q := σ.q ++ l } = some m := by
+  cases hq : σ.q with
+  | nil => simp [modelOf, hq] at h
+  | cons k r => simp only [modelOf, hq] at h ⊢; exact h
+
+theorem modelOf_of_head {σ : Q} {t m : Nat} (h : σ.q.head? = some (t, m)) : modelOf σ = some m := by
+  simp [modelOf, h]
+
+theorem InSync.ne_nil {σ : Q} {q : List QE} {m : Nat} (h : InSync σ q) (hm : modelOf σ = some m) : qv m q ≠ [] := by
+  obtain ⟨m1, hm1, hv⟩ := h
+  rw [hm] at hm1
+  cases hm1
+  intro h0
+  rw [h0] at hv
+  simp [modelOf, ← hv] at hm
+
+/-- `defer` finds the session of `m` below the innermost one and appends there: everything `Lower` says survives -/
+theorem defer_below (t m ev : Nat) (q : List QE) : ∀ (below : List Q), some m ∈ below.map modelOf →
+    (∀ σ ∈ below, InSync σ q) → (below.map modelOf).Nodup →
+    ∃ below', defer t m below = some below' ∧ Ext below below' ∧ below'.map modelOf = below.map modelOf ∧
+      (∀ σ ∈ below', InSync σ (q ++ [(m, ev, t)]))
+  | [], hmem, _, _ => by simp at hmem
+  | σ :: rest, hmem, hsync, hnd => by
+    simp only [List.map_cons, List.nodup_cons] at hnd
+    by_cases hm : modelOf σ = some m
+    · refine ⟨{ σ with q := σ.q ++ [(t, m)] } :: rest, by simp [defer, hm], ⟨⟨rfl, rfl, [(t, m)], rfl⟩, Ext.refl rest⟩,
+        by simp [modelOf_append hm, hm], ?_⟩
+      intro σ1 h1
+      rcases List.mem_cons.mp h1 with h2 | h2
+      · subst h2
+        obtain ⟨m1, hm1, hv⟩ := hsync σ (List.mem_cons_self ..)
+        rw [hm] at hm1
+        cases hm1
+        exact ⟨m, modelOf_append hm _, by rw [qv_append_same, hv]⟩
+      · refine (hsync σ1 (List.mem_cons_of_mem _ h2)).frame ?_
+        intro m' hm'
+        refine qv_append_other ev t q ?_
+        intro hmm
+        rw [hmm] at hm'
+        exact hnd.1 (hm ▸ List.mem_map.mpr ⟨σ1, h2, hm'⟩)
+    · have hmem' : some m ∈ rest.map modelOf := by
+        rcases List.mem_cons.mp hmem with h | h
+        · exact absurd h.symm hm
+        · exact h
+      obtain ⟨rest', hd, hext, hmap, hs'⟩ := defer_below t m ev q rest hmem'
+        (fun σ1 h1 => hsync σ1 (List.mem_cons_of_mem _ h1)) hnd.2
+      refine ⟨σ :: rest', by simp [defer, hm, hd], ⟨⟨rfl, rfl, [], by simp⟩, hext⟩, by simp [hmap], ?_⟩
+      intro σ1 h1
+      rcases List.mem_cons.mp h1 with h2 | h2
+      · subst h2
+        refine (hsync σ1 (List.mem_cons_self ..)).frame ?_
+        intro m' hm'
+        refine qv_append_other ev t q ?_
+        intro hmm
+        rw [hmm] at hm'
+        exact hm hm'
+      · exact hs' σ1 h2
+
+theorem SynT.modelOf_top {d : Nat} {below0 : List Q} {x : Ctx} {f : Bool} {σ : Q} {below : List Q} {s : St}
+    (h : SynT d below0 x f σ below s) : modelOf σ = some x.model :=
+  modelOf_of_head (by rw [← h.rel]; exact h.head)
+
+theorem SynT.top_ne_nil {d : Nat} {below0 : List Q} {x : Ctx} {f : Bool} {σ : Q} {below : List Q} {s : St}
+    (h : SynT d below0 x f σ below s) : qv x.model s.queue ≠ [] := by
+  intro h0; have := h.head; simp [h0] at this
+
+/-- a model with a session has something pending -/
+theorem SynT.busy_ne_nil {d : Nat} {below0 : List Q} {x : Ctx} {f : Bool} {σ : Q} {below : List Q} {s : St}
+    (h : SynT d below0 x f σ below s) {m : Nat} (hm : some m ∈ (σ :: below).map modelOf) : qv m s.queue ≠ [] := by
+  simp only [List.map_cons, List.mem_cons] at hm
+  rcases hm with h1 | h1
+  · rw [h.modelOf_top] at h1
+    cases h1
+    exact h.top_ne_nil
+  · obtain ⟨σ1, hσ1, hm1⟩ := List.mem_map.mp h1
+    exact (h.low.sync σ1 hσ1).ne_nil hm1
+
+/-- a model with something pending has a session -/
+theorem SynT.busy_of_ne_nil {d : Nat} {below0 : List Q} {x : Ctx} {f : Bool} {σ : Q} {below : List Q} {s : St}
+    (h : SynT d below0 x f σ below s) {m : Nat} (hm : qv m s.queue ≠ []) (hne : m ≠ x.model) :
+    some m ∈ below.map modelOf := by
+  apply Classical.byContradiction
+  intro hno
+  apply hm
+  rw [qv_eq_nil_iff]
+  intro e he hem
+  rcases h.low.cover e he with h1 | h1
+  · exact hne (hem.symm.trans h1)
+  · rw [hem] at h1; exact hno h1
+
+/-- a nested session has ended: the session it was opened from is found again, in step with its model's queue
+(which may have grown by deferred triggers) -/
+theorem SynT.resume {d : Nat} {below0 : List Q} {x : Ctx} {f : Bool} {σ : Q} {below : List Q} {s : St}
+    (h : SynT d below0 x f σ below s) {stk : List Q} {q' : List QE} (hLD : LowerDone (σ :: below) stk q') :
+    ∃ σ' below', stk = σ' :: below' ∧ σ'.owner = d ∧ σ'.fin = f ∧ qv x.model q' = σ'.q ∧
+      (qv x.model q').head? = some (x.tag, x.model) ∧ Lower below0 below' q' x.model := by
+  cases stk with
+  | nil => exact hLD.ext.elim
+  | cons σ' below' =>
+    obtain ⟨⟨ho, hf, suf, hq⟩, hext⟩ := hLD.ext
+    have hhead : σ'.q.head? = some (x.tag, x.model) := by
+      rw [hq, ← h.rel, head?_append_of_ne _ h.top_ne_nil]; exact h.head
+    have hmo : modelOf σ' = some x.model := modelOf_of_head hhead
+    obtain ⟨m1, hm1, hv1⟩ := hLD.sync σ' (List.mem_cons_self ..)
+    rw [hmo] at hm1
+    cases hm1
+    refine ⟨σ', below', rfl, ho.trans h.owner, hf.trans h.fin, hv1, by rw [hv1]; exact hhead,
+      h.low.ext.trans hext, fun σ1 h1 => hLD.sync σ1 (List.mem_cons_of_mem _ h1), ?_, ?_⟩
+    · have := hLD.nodup
+      simp only [List.map_cons, hmo] at this
+      exact this
+    · intro e he
+      have := hLD.cover e he
+      simp only [List.map_cons, hmo, List.mem_cons, Option.some.injEq] at this
+      exact this
+
+theorem qOf_len (m ev t : Nat) (q : List QE) :
+    (Async.qOf 2 m (q ++ [(m, ev, t)])).length > 1 ↔ qv m q ≠ [] := by
+  rw [qOf_two]
+  simp only [List.filter_append, List.filter_cons, decide_true, if_true, List.filter_nil, List.length_append,
+    List.length_singleton, qv, ne_eq, List.map_eq_nil_iff]
+  cases q.filter (fun e => e.1 = m) <;> simp
+
 end M5
 end TM
